@@ -56,10 +56,11 @@ class Client:
 
     def start(self):
         env = dict(os.environ)
-        env["PYTHONPATH"] = "/verif" + (":" + env["PYTHONPATH"] if env.get("PYTHONPATH") else "")
+        root = os.path.dirname(os.path.dirname(os.path.abspath(__file__)))
+        env["PYTHONPATH"] = root + (":" + env["PYTHONPATH"] if env.get("PYTHONPATH") else "")
         env.pop("SPP_VERIF_SHIMS", None)
         self.p = subprocess.Popen([sys.executable, "-m", "spv.concrete"], stdin=subprocess.PIPE, stdout=subprocess.PIPE,
-                                  stderr=subprocess.DEVNULL, text=True, cwd="/verif", env=env)
+                                  stderr=subprocess.DEVNULL, text=True, cwd=root, env=env)
 
     def call(self, req):
         if self.p is None or self.p.poll() is not None:
